@@ -54,6 +54,8 @@ func VerifC20Secrets() {
 	_, carrier := p.Secrets["envsec"].Extensions["x-#value"]
 	vrtAssert("private-carrier-key-removed", !carrier)
 	before := vrtClone(p).(*types.Project)
+	// earlier renderings stay with the caller as the byte slices they were returned as
+	var heldPublic [][]byte
 	render := func(json, content bool) string {
 		var b []byte
 		var e error
@@ -68,7 +70,31 @@ func VerifC20Secrets() {
 			b, e = p.MarshalYAML()
 		}
 		vrtAssert("rendering-succeeds", e == nil)
+		if !content {
+			heldPublic = append(heldPublic, b)
+		}
+		if vrtEngine() {
+			// the bytes handed to the caller are the caller's: nothing the library keeps (package-level variable,
+			// pooled buffer) may still reach them
+			if vrtSharedWithLibrary(b) != "" {
+				vrtReport("rendering-aliased-by-library-state")
+			}
+		}
 		return string(b)
+	}
+	if !vrtEngine() {
+		// native twin of the aliasing check: a public rendering held as bytes must survive later renderings
+		b1, _ := p.MarshalYAML()
+		s1 := string(b1)
+		j1, _ := p.MarshalJSON()
+		t1 := string(j1)
+		for k := 0; k < 3; k++ {
+			p.MarshalYAML(types.WithSecretContent) //nolint:errcheck
+			p.MarshalJSON(types.WithSecretContent) //nolint:errcheck
+		}
+		if string(b1) != s1 || string(j1) != t1 {
+			vrtReport("rendering-aliased-by-library-state")
+		}
 	}
 	n := 1 + vrtChoice("renderings", vrtParam("SEQ", 2))
 	for k := 0; k < n; k++ {
@@ -84,5 +110,8 @@ func VerifC20Secrets() {
 		}
 		vrtAssert("config-renders-variable-not-content", !c20Contains(out, cfgCanary) && c20Contains(out, "CONFIG_VAR"))
 		vrtAssert("rendering-does-not-modify-project", vrtDeepEqual(any(p), any(before)))
+		for _, h := range heldPublic {
+			vrtAssert("earlier-public-rendering-still-free-of-the-secret", !c20Contains(string(h), canary))
+		}
 	}
 }
